@@ -10,7 +10,7 @@
    empty, absolute, NUL, over-long), symlink entries with arbitrary targets, repeated names,
    missing and undecodable blocks, raw roots. *)
 From GoCar Require Import Bytes ExtractFs.
-From GoCarProofs Require Import ExtractFsCmd ExtractFsExamples.
+From GoCarProofs Require Import ExtractFsCmd ExtractFsExamples ExtractFsKernel.
 
 (* Containment.  Whatever the archive and whatever already is in the file system, every physical
    path that is not the resolved output directory or below it is mapped to exactly what it was
@@ -72,3 +72,18 @@ Theorem C17_unpatched_extract_refuted :
     look (fst (extract_cmd false fs cwd outdir pathflag roots)) p <> look fs p.
 Proof. exact unfixed_refuted. Qed.
 Print Assumptions C17_unpatched_extract_refuted.
+
+(* ... and it is the directory the kernel itself reaches for that argument: stat(2)-style
+   resolution of the string (following every symbolic link, from "/" or the working directory)
+   ends at the same physical path, unless the kernel gives up with ELOOP (its limit of 40 links is
+   lower than EvalSymlinks' 255).  [klinks] is the kernel's link budget; no link has an empty
+   target (symlink(2) refuses to create one). *)
+Theorem C17_resolved_output_directory_is_where_the_kernel_goes :
+  forall fs cwd outdir root klinks,
+    (forall p, look fs p <> Some (NLink [])) ->
+    eval_symlinks_str fs cwd outdir = Some root ->
+    kwalk klinks fs true (k_start cwd (is_abs outdir)) (split_slash outdir)
+      = KOk (phys_of cwd root) (look fs (phys_of cwd root)) \/
+    kwalk klinks fs true (k_start cwd (is_abs outdir)) (split_slash outdir) = KErr ELOOP.
+Proof. exact eval_symlinks_is_kernel_resolution. Qed.
+Print Assumptions C17_resolved_output_directory_is_where_the_kernel_goes.
